@@ -535,6 +535,22 @@ HIDDEN_CFG = {'export': False, 'hp': {'export': True}, 'target': {'export': 'tx'
               'hcmd': {'export': True}, 'go': {'export': 'gox'}}
 
 
+# a visible instance of the same class in which the configuration hides / renames single accessibles: the names another
+# instance of the class registers must not become reachable here
+PARTIAL_CFG = {'hp': {'export': False}, 'target': {'export': 'tx2'}, 'hcmd': {'export': False}, 'go': {'export': 'gox2'}}
+
+
+def partial_gone_names():
+    """wire names that do NOT exist on the instance configured with PARTIAL_CFG (they do on a plain instance)"""
+    ref = reference(HIDDEN_SHAPE)
+    gone = {'param': set(), 'command': set()}
+    for kind, table in (('param', ref['params']), ('command', ref['commands'])):
+        for attr, rec in table.items():
+            if attr in PARTIAL_CFG and rec['wire']:
+                gone[kind].add(rec['wire'])
+    return gone
+
+
 def hidden_names():
     """every candidate wire name of the unexported neighbour: declared wire name, attribute name, _name, names given in
     HIDDEN_CFG"""
